@@ -17,4 +17,43 @@ CHECKS = {
         assumptions=["packets are built through public struct fields and the Options map", "HWType <= 255 as the property's domain says"],
         exhaustive_note="split-boundary lengths per code are enumerated completely",
     ),
+    "C04": dict(
+        title="DHCPv4 decoding accepts exactly well-formed packets and reads the RFC values",
+        stages=[dict(name="diff", shards=S16, timeout={"quick": 600, "thorough": 3000})],
+        rule="differential executions: (a) EVERY options area over the byte alphabet {0,1,2,3,53,61,82,255} up to length 6 (quick) / 8 (thorough) behind a fixed valid header, "
+             "(b) every truncation point of generated valid packets, (c) all 256 values of every length octet, every cookie octet and hlen of generated packets, "
+             "(d) generated non-canonical packets (unsorted, split, padded, trailing bytes) and structure-aware mutants of them. Shape = reject reason, or the sequence of "
+             "(code class, length class) + pads + trailing-bytes flag + hlen; non-trivial iff the options area has >= 2 elements or the case is a reject other than a short header.",
+        technique="differential monitor: real dhcpv4.FromBytes vs an independent RFC 2131/2132/3396 reference decoder (accept/reject agreement + value equality), exhaustive small scope + mutation",
+        level_text="Accept/reject and every decoded field of the real decoder are compared with an independently written reference decoder on an exhaustively enumerated small scope "
+                   "(all option areas over an 8-symbol alphabet up to a fixed length), on every truncation/length/cookie perturbation of generated packets and on random mutants.",
+        level_note="Trusts harness/ref4 (independent reference decoder, ~100 lines, itself cross-checked against the wire generator's expectation on every generated packet).",
+        assumptions=["reference decoder ref4 implements the C04 statement", "inputs beyond 1500 bytes are not generated here (C03/C09 cover large inputs)"],
+        exhaustive_note="all options areas over the alphabet up to the stated length; all truncation points; all 256 values of each perturbed octet",
+    ),
+    "C07": dict(
+        title="DHCPv4 encoding is deterministic, canonical and readable by any RFC decoder",
+        stages=[dict(name="enc", shards=S16, timeout={"quick": 600, "thorough": 3000})],
+        rule="(a) generated packets of the C01 domain, each encoded 4 times (Go randomises map iteration per call); (b) option sets of 2..6 options: ALL permutations of the same updates "
+             "(UpdateOption / WithGeneric modifier / add-delete-re-add styles interleaved), 7..12 options: 200 sampled orders. Shape = sorted code classes + split pattern (+ permutation size); "
+             "non-trivial iff >= 3 options or option 82 present or a value > 255 bytes.",
+        technique="wire-format validator and independent reference decoder applied to every encoding produced by the real encoder; byte-equality monitor across repeated encodings and all construction orders",
+        level_text="Every encoding produced is checked by a validator sharing no code with the library (length floor, cookie, ascending order with 82 last, adjacency and 255-byte splits, "
+                   "single End, zero padding) and re-read by the reference decoder against the generator's record; equal contents must give identical bytes over all enumerated construction orders.",
+        level_note="Trusts harness/ref4.Validate and ref4.Decode.",
+        assumptions=["option codes 1..254 only (0 and 255 are not options)"],
+        exhaustive_note="all k! construction orders for k <= 6 options of each drawn option set",
+    ),
+    "C17": dict(
+        title="DHCPv4 typed accessors agree with the raw option bytes",
+        stages=[dict(name="acc", shards=S16, timeout={"quick": 600, "thorough": 3000})],
+        rule="for each of the 30 typed accessors of *DHCPv4 (method set checked by reflection; unmodelled ones are listed) and EVERY raw value length 0..64: fills {zeros, 0xFF, counting, small values} "
+             "+ 200 (quick) / 5000 (thorough) random fills + structure-aware values (routes, relay sub-options, user classes, VIVC entries, compressed names, truncated forms), placed directly in Options and "
+             "via encode->decode; plus the reverse direction constructor -> UpdateOption -> accessor (also after a wire trip). Shape = (accessor, length, placement, well-formed|default); non-trivial iff length > 0.",
+        technique="per-accessor reference interpreter (written from RFC 2132/3442/3004/3925/3397/3046/4578/8925) evaluated online against the real accessors over exhaustive lengths and generated contents",
+        level_text="Each accessor result is compared with an independent interpretation of the raw bytes; every off-by-one length of each fixed-size type is hit because all lengths 0..64 are enumerated.",
+        level_note="Trusts the reference interpreters in harness/c17 and harness/reflabel; relay-agent values containing sub-option codes 0/255 and gray-zone compression pointers are unjudged (counted).",
+        assumptions=["a non-nil empty slice planted in Options is exercised for crash-freedom only (the decoder never produces it)"],
+        exhaustive_note="every raw length 0..64 per accessor",
+    ),
 }
